@@ -62,11 +62,10 @@ def check_final(final, elig, hidden, tag, viol, full_used=None):
 def judge(case):
     from pedal.core.report import MAIN_REPORT
     viol, classes = [], []
-    raised = G.replay_scenario(case)
+    raised, sups = G.replay_scenario(case)
     if raised:
         classes.append('ctor-raised')
     obs = M.observe(MAIN_REPORT)
-    sups = case['sups']
     elig, amb = M.eligible(obs, sups)
     if amb:
         MAIN_REPORT.full_clear()
